@@ -880,3 +880,12 @@ THEOREMS = THEOREMS + ["OdxVerif.Codec." + t for t in [
     "C05_jump_is_not_a_read", "C05_truncated_rejected_comps", "C05_truncated_rejected_described", "C05_truncated_rejected_described2",
     "C05_truncated_leaf_described",
     "C05_truncated_leaf_described_example", "Comps.reads_prefix", "Reads.rejected", "Reads.msg", "keeps_decode_all", "c5Req_reads"]]
+
+
+# --- W26 (nested tier, second part): the ghost-instrumented decoder — "nothing is invented" for the whole decoder model ---------
+LEAN_TARGETS = LEAN_TARGETS + ["OdxVerif.Props.C05Nested2"]
+THEOREMS = THEOREMS + ["OdxVerif.Codec." + t for t in [
+    "C05_log_erasure", "C05_log_erasure_site", "C05_log_erasure_param", "C05_log_erasure_params",
+    "C05_no_invention_all", "C05_truncated_rejected_all", "C05_requests_dichotomy",
+    "C05_no_invention_site", "C05_truncated_rejected_log_site", "C05_probe_requests_are_exempt",
+    "erases_decode_all", "lgood_decode_all", "c5Req_log", "c5Req_log_ok", "c5Req_ok", "c5Jump_log", "c5Probe_log", "c5Probe_ok"]]
